@@ -27,6 +27,11 @@ class Stream(object):
     self.mode = "grid"
     self.u = (j + 0.5) / k
 
+  def set_const(self, u):
+    """Every draw returns u (extreme but legal draws: 0 and the largest float32 below 1)."""
+    self.mode = "grid"
+    self.u = float(u)
+
   def set_real(self, seed):
     self.mode = "real"
     self.seed = seed
